@@ -28,8 +28,8 @@ ASSUMPTIONS = [
     "names are served as quoted strings and bodies as literals (other encodings are C17's)",
 ]
 EXHAUSTIVE = {"quick": True, "thorough": True}
-FLOORS = {"quick": {"cases": 2500, "faulted-cases": 2000, "true-results": 100},
-          "thorough": {"cases": 20000, "faulted-cases": 18000, "true-results": 400}}
+FLOORS = {"quick": {"cases": 4000, "faulted-cases": 3500, "true-results": 100},
+          "thorough": {"cases": 23000, "faulted-cases": 22000, "true-results": 200}}
 SHARD_TIMEOUT = {"quick": 600, "thorough": 3000}
 
 BODIES = [b"keep;\n", b"keep;\r\nstop;\r\n", b"discard;", b'OK "x"\r\nNO\r\n{5}\r\nkeep;\r\n',
@@ -82,7 +82,14 @@ def all_cases(tier):
 
 def plan(tier, seed):
     n = len(all_cases(tier))
-    return [{"w": "enum", "range": [s, e]} for s, e in split(n, 16 if tier == "quick" else 48)]
+    shards = [{"w": "enum", "range": [s, e], "variant": "plain"}
+              for s, e in split(n, 16 if tier == "quick" else 48)]
+    if tier == "thorough":
+        # the same exhaustive product once more with status texts encoded at random
+        # (quoted / literal) and random recv() segmentation
+        shards += [{"w": "enum", "range": [s, e], "variant": "mixed", "rs": seed * 7919 + i}
+                   for i, (s, e) in enumerate(split(n, 48))]
+    return shards
 
 
 def norm(b):
@@ -117,10 +124,26 @@ def build(st, bi, plan_, encodings="quoted"):
     return srv
 
 
-def run_case(case, res: Result):
+def run_case(case, res: Result, rng=None):
     st, bi, plan_ = case
     srv = build(st, bi, plan_)
-    sess, r = mslab.authed_session(srv)
+    seg = None
+    if rng is not None:
+        srv.rng = random.Random(rng.randrange(1 << 30))
+        srv.how = lambda srv=srv: srv.rng.choice(["quoted", "literal"])
+        _list = srv.do_listscripts
+
+        def do_list(args, srv=srv):
+            # names stay quoted (literal names are C17's known finding)
+            if not srv._want(args):
+                return
+            for name in srv.scripts:
+                srv.emit(ms.quoted(name) + (b" ACTIVE" if name == srv.active else b"")
+                         + ms.CRLF)
+            srv.final("OK", None, b"Listscripts completed.")
+        srv.do_listscripts = do_list
+        seg = ms.Seg(rng=random.Random(rng.randrange(1 << 30)))
+    sess, r = mslab.authed_session(srv, seg)
     if r != ("ret", True):
         res.inconclusive.append("auth failed: %r" % (r,))
         return
@@ -191,8 +214,9 @@ def run_case(case, res: Result):
 def run_shard(tier, shard, res: Result):
     cases = all_cases(tier)
     s, e = shard["range"]
+    rng = random.Random(shard["rs"]) if shard.get("variant") == "mixed" else None
     for i in range(s, e):
-        run_case(cases[i], res)
+        run_case(cases[i], res, rng)
         if i % 487 == 0:
             st, bi, plan_ = cases[i]
             res.sample({"state": list(st), "body": BODIES[bi], "faults": [list(p) for p in plan_]}, 3)
